@@ -547,6 +547,11 @@ fn objstm_cases(c: &mut Ctx) {
         for (members, damage) in &conts {
             cid += 1;
             orig.objects.insert((cid, 0), make_objstm(members, *damage));
+            // a document that was LOADED from a file with object streams still carries the cross-reference entries that place
+            // the members in their containers (and may have been edited since): half of the members get such an entry
+            for (j, (id, _)) in members.iter().enumerate() {
+                if r.chance(1, 2) { orig.reference_table.insert(*id, lopdf::xref::XrefEntry::Compressed { container: cid, index: j as u16 }); c.count("objstm.member_with_compressed_xref_entry"); }
+            }
             if *damage == 0 {
                 // BTreeMap of one container: the last entry of a repeated number wins; across containers the first container wins
                 let mut one: BTreeMap<u32, Object> = BTreeMap::new();
